@@ -346,7 +346,7 @@ func runSession(c Case, tr *Tracer) {
 		if p != nil {
 			e["getcmd"] = pduGetCmd(p)
 			g := p.GenEmptyResponse()
-			e["gennil"] = g == nil || reflect.ValueOf(g).IsNil()
+			e["gennil"] = g == nil // a typed nil pointer in the interface is not "none" for a caller that writes resp != nil
 			e["site"] = dt
 		}
 		tr.emit(e)
@@ -494,7 +494,7 @@ func runSessionScript(pkg string, script []map[string]interface{}, rr *rand.Rand
 			if p != nil {
 				e["getcmd"] = pduGetCmd(p)
 				g := p.GenEmptyResponse()
-				e["gennil"] = g == nil || reflect.ValueOf(g).IsNil()
+				e["gennil"] = g == nil // a typed nil pointer in the interface is not "none" for a caller that writes resp != nil
 				e["site"] = dt
 			}
 			tr.emit(e)
